@@ -85,7 +85,9 @@ LONG_FROM = [0]
 
 def starving_chooser(seed):
     """never lets a task body finish: what happens must not depend on the bodies"""
-    base = W.random_chooser(seed, p_timeout=0.0, p_crash=0.0)
+    # half of the starved runs use priority scheduling (e.g. all submissions racing ahead of the workers)
+    base = W.pct_chooser(seed, depth=1 + seed % 3, p_timeout=0.0, p_crash=0.0) if seed % 2 else \
+        W.random_chooser(seed, p_timeout=0.0, p_crash=0.0)
 
     def factory(eng):
         ch = base(eng)
@@ -133,7 +135,7 @@ class E1Part:
                 jobs.append({"family": fam, "seed": base + i, "props": self.props,
                              "lockstep": self.lockstep_on and fam in LOCKSTEP_FAMILIES,
                              "starve_bodies": bool(self.starve and i % self.starve == 0
-                                                   and fam in ("kill", "saturate", "saturateleak", "reusesaturate")),
+                                                   and fam in ("kill", "saturate", "saturateleak", "satreuse")),
                              "pct": i % 5 in (1, 3) and fam not in ("saturate",),
                              "sample": i == 0})
         return jobs
